@@ -429,7 +429,50 @@ func containsCallTo(w *World, f *Fn, body ast.Node, litVar string) bool {
 	return found
 }
 
+// R34.4: when the oracle is (re)initialised the commit watermark ends exactly one below the next
+// timestamp.
+func ruleR34_4(c *Check) {
+	w := c.W
+	r := c.Rule("R34.4", "E4+E1", 3, "outside oracle.doneCommit every txnMark.Done(x) — Open, DB.Load, StreamWriter.Flush (re)initialising the oracle — leaves the watermark at nextTxnTs-1: either x is the value nextTxnTs holds and incrementNextTs follows on every path, or x is nextTxnTs-1 and no increment follows",
+		"a watermark already at the next commit's timestamp lets a reader that starts during that commit in at once (readTs == commitTs while the commit is still being applied); one that is too low strands every reader")
+	done := w.Func("y.WaterMark.Done")
+	tm := w.Field("badger.oracle.txnMark")
+	next := w.Field("badger.oracle.nextTxnTs")
+	inc := selCallName(w, "badger.oracle.incrementNextTs")
+	var k keyer
+	n := 0
+	for _, o := range allSites(w, "badger", selCallOn(done, tm)) {
+		f := o.SiteFn
+		if f.Root().Name == "badger.oracle.doneCommit" {
+			continue
+		}
+		n++
+		call := o.Node.(*ast.CallExpr)
+		arg := call.Args[0]
+		followed := f.Followed(Occ{V: f.G().VertexOf(call), Node: call, Site: call, SiteFn: f}, f.Occs(inc, 0), exitSuccess).OK
+		if followed {
+			// x is what nextTxnTs holds: the field itself, a local copy of it, or the very value stored into it just before
+			okv := w.fieldOf(w.Origin(f, arg)) == next
+			if !okv {
+				for _, s := range f.Sites(selStore(next)) {
+					if as, isAs := s.(*ast.AssignStmt); isAs && len(as.Rhs) == 1 && s.Pos() < call.Pos() {
+						if types.ExprString(unparen(as.Rhs[0])) == types.ExprString(unparen(arg)) {
+							okv = true
+						}
+					}
+				}
+			}
+			r.Check(okv, f, k.key("watermark at nextTxnTs, then incremented", w, call), call, "txnMark.Done("+short(w, arg)+") is followed by incrementNextTs but its argument is not the value of nextTxnTs")
+		} else {
+			a, b, ok := w.linear(f, arg, w.isField(next), 0)
+			r.Check(ok && a == 1 && b == -1, f, k.key("watermark at nextTxnTs-1", w, call), call, "txnMark.Done("+short(w, arg)+") with no increment afterwards: the argument must be nextTxnTs-1")
+		}
+	}
+	r.Exists(n >= 3, nil, "oracle (re)initialisation sites", nil, "expected the txnMark.Done calls of Open, DB.Load and StreamWriter.Flush")
+}
+
 func propC34(c *Check) {
+	ruleR34_4(c)
 	ruleR01_1(c)
 	ruleR03_2(c)
 	ruleR03_3(c)
@@ -646,6 +689,7 @@ func propC36(c *Check) {
 	ruleR36_3(c)
 	ruleR13_3(c)
 	ruleR01_1(c)
+	ruleR01_3(c) // caller-chosen versions are not ordered by age: the newest version is taken over ALL sources
 }
 
 // ---- C11 ----
